@@ -3,7 +3,7 @@
    partitura/performance.py by the correspondence run by harness/props/c14.py on every check;
    the specification (Model/C14_Spec.v) is defined directly over the unsorted control stream. *)
 From PV Require Import Lib.Base Lib.Round Model.C12 Model.C14 Model.C14_Spec
-  Proofs.C14_so Proofs.C14_spec Proofs.C14.
+  Proofs.C14_so Proofs.C14_spec Proofs.C14 Proofs.C14_hist.
 From Coq Require Import QArith Qminmax Qabs.
 #[local] Open Scope Q_scope.
 
@@ -67,6 +67,73 @@ Theorem setter_recomputes : forall thr0 ns cs ts t,
   p_so p = sound_offs t ns cs /\ p_thr p = t /\ p_notes p = ns /\ p_ctrls p = cs.
 Proof. exact setter_recomputes_lemma. Qed.
 Print Assumptions setter_recomputes.
+
+(* O3c  history independence.  From any part (whatever sound_off values its notes carry), after
+   any history of steps -- threshold assignments, controls replaced / pruned / extended followed by
+   an assignment, notes edited / added / deleted followed by an assignment, a part rebuilt from the
+   notes of the part (which carry their sounding ends), from_note_array(note_array()) -- the
+   sound_off column is sound_offs of the CURRENT notes, controls and threshold, nothing else *)
+Theorem history_independent : forall p ss s,
+  List.length (p_so p) = List.length (p_notes p) ->
+  let q := run_history p (ss ++ [s]) in
+  p_so q = sound_offs (p_thr q) (p_notes q) (p_ctrls q).
+Proof. exact history_independent_lemma. Qed.
+Print Assumptions history_independent.
+
+(* O3d  two histories, from two parts, that arrive at the same notes, controls and threshold
+   leave the same sounding ends *)
+Theorem histories_agree : forall p p' ss ss' s s',
+  List.length (p_so p) = List.length (p_notes p) ->
+  List.length (p_so p') = List.length (p_notes p') ->
+  let q := run_history p (ss ++ [s]) in
+  let q' := run_history p' (ss' ++ [s']) in
+  p_notes q = p_notes q' -> p_ctrls q = p_ctrls q' -> p_thr q = p_thr q' -> p_so q = p_so q'.
+Proof. exact histories_agree_lemma. Qed.
+Print Assumptions histories_agree.
+
+(* O2c'  after any history that leaves no sustain-pedal event in the controls every note ends
+   at its release (pedal events removed after they extended notes, then the threshold assigned) *)
+Theorem no_pedal_after_history : forall p ss s,
+  List.length (p_so p) = List.length (p_notes p) ->
+  let q := run_history p (ss ++ [s]) in
+  pedal_events (p_ctrls q) = [] -> p_so q = map n_off (p_notes q).
+Proof. exact no_pedal_after_history_lemma. Qed.
+Print Assumptions no_pedal_after_history.
+
+(* O1'  building a part from notes that already carry a sound_off (copied from a pedalled part,
+   or arbitrary) gives the part built from the bare notes: the carried values are ignored *)
+Theorem carried_sound_off_ignored : forall thr ns so0 cs,
+  List.length so0 = List.length ns ->
+  new_part_carrying thr ns so0 cs = new_part thr ns cs /\
+  p_so (new_part_carrying thr ns so0 cs) = sound_offs thr ns cs.
+Proof. exact carried_sound_off_ignored_lemma. Qed.
+Print Assumptions carried_sound_off_ignored.
+
+(* O3e  the recomputation ignores the previous sound_off column and threshold, and is idempotent *)
+Theorem recompute_ignores_sound_off : forall ns cs thr thr' so so' t,
+  List.length so = List.length ns -> List.length so' = List.length ns ->
+  p_so (set_threshold (mkPart ns cs thr so) t) = p_so (set_threshold (mkPart ns cs thr' so') t).
+Proof. exact recompute_ignores_sound_off_lemma. Qed.
+Print Assumptions recompute_ignores_sound_off.
+
+Theorem recompute_idempotent : forall p t,
+  set_threshold (set_threshold p t) t = set_threshold p t.
+Proof. exact recompute_idempotent_lemma. Qed.
+Print Assumptions recompute_idempotent.
+
+(* a non-trivial history: the pedal extends two notes; removing the pedal events (another
+   controller stays) and assigning the same threshold, or rebuilding a part without pedal from
+   the notes that carry the extended ends, brings every note back to its release; putting the
+   pedal events back extends them again *)
+Theorem history_example :
+  let p := new_part 64 hx_notes hx_pedal in
+  p_so p = [3; 3; 5] /\
+  p_so (run_history p [SetCtrls hx_other 64]) = [1; 3#2; 5] /\
+  p_so (run_history p [Rebuild hx_other 64]) = [1; 3#2; 5] /\
+  p_so (run_history p [SetCtrls hx_other 64; SetCtrls hx_pedal 64]) = [3; 3; 5] /\
+  p_so (new_part_carrying 64 hx_notes [3; 3; 5] hx_other) = [1; 3#2; 5].
+Proof. exact history_example_lemma. Qed.
+Print Assumptions history_example.
 
 (* O4a  note array: onset in seconds and in ticks agree (nearest tick) for all ppq, mpq *)
 Theorem onset_tick_agrees : forall ppq mpq x,
